@@ -133,6 +133,17 @@ def replay(case):
                         out.append(('als:%s:fullrank:scaled:%s' % (solver, kind), 'operator scaled by 2^%d: guess of maximal ranks does not give the '
                                     'exact extremal eigenpair: lambda %r vs %r, overlap %r (dims %r)' % (e2, lam, wl, ov, dims)))
                         break
+                # second use of one operator object: solved once, re-scaled in place by the caller (first core x 3), solved again
+                A3 = A.copy()
+                evp.als(A3, xfull, repeats=1, solver=solver, sigma=w[-1] + 1.0, **kw)
+                A3.cores[0] = 3.0 * A3.cores[0]
+                lam, t, it = evp.als(A3, xfull, repeats=1, solver=solver, sigma=(w[-1] + 1.0) * 3, **kw)
+                pm = metadata_problem(t)
+                x = vec(t) if not pm else None
+                ov = abs(x.conj() @ Bd @ vt) / np.sqrt(abs(x.conj() @ Bd @ x)) if x is not None else 0.0
+                if pm or abs(lam - 3 * w[-1]) > 1e-8 * 3 * scale or abs(ov - 1) > 1e-6:
+                    out.append(('als:%s:fullrank:second-use:%s' % (solver, kind), 'operator object re-scaled in place (first core x 3) between two '
+                                'calls: lambda %r vs %r, overlap %r (dims %r)' % (lam, 3 * w[-1], ov, dims)))
         if bot_sep and N > 2:
             lam, t, it = evp.als(A, xfull, repeats=1, solver='eig', sigma=w[0] - 1.0, **kw)
             if consistent(lam, t, 'als:eig') and abs(lam - w[0]) > 1e-8 * scale:
